@@ -19,7 +19,7 @@ RULE = ("TLC enumerates (GenC19.tla) every non-degenerate triangle pattern x eve
         "and closed, at scale 1000 (sample points on the 1/8 lattice); plus seeded random patterns with 3-5 vertices (convex hulls, angularly "
         "sorted non-convex, random order = mostly self-intersecting; classified by TLC) x random paths with 2-5 vertices, coordinates < 2^8, "
         "identity embedding plus one of: translations 2^29/2^30, scale 3 with translations 2^39 (diff result at 2^40), scale 2^13 with "
-        "translations 2^40-2^23, scale 2^30; empty pattern / path; a deep-overlap family (tall rectangle pattern swept along a folded hatch path of 254-300 strokes, so that 254..300 parallelograms overlap over a whole band; sample points in the band's central column); PathD overloads with 0-3 decimal places compared natively with the Path64 "
+        "translations 2^40-2^23, scale 2^30; empty pattern / path; a deep-overlap family (tall rectangle pattern swept along a folded hatch path of 255/256 (thorough: also 127, 128, 257, 300) strokes, so that as many parallelograms overlap over a whole band; sample points in the band's central column); PathD overloads with 0-3 decimal places compared natively with the Path64 "
         "result. Every call is judged by TLC at 64-160 sample points (clearance and parallelogram membership computed in TLA+). "
         "non-trivial = non-empty result whose measured cover has both covered and uncovered sample points; distinct by (pattern, path, op, "
         "closed, embedding)")
@@ -64,8 +64,8 @@ def make_jobs(ctx, scope):
             add("hi" if k % 2 == 0 else "plain", fam="in", **{"in": scope}, n=0, skip=k, stride=128, emb="4,5", ps=8, npts=64, d=0, seed=s + 1)
     for k in range(16 if q else 48):
         add("plain" if k % 2 == 0 else "hi", fam="rand", n=21 if q else 63, emb="0,1,2,4,5", rotemb=1, npts=160, d=1, seed=s * 1000 + k)
-    # deep overlap (>= 254 same-orientation parallelograms piled up over a whole band): winding counters of the union sweep
-    for k, E in enumerate(["255", "254"] if q else ["255", "254", "256", "257", "300"]):
+    # deep overlap (127..300 same-orientation parallelograms piled up over a whole band): winding counters of the union sweep
+    for k, E in enumerate(["255", "256"] if q else ["255", "256", "257", "127", "128", "300"]):
         add("plain" if k % 2 == 0 else "hi", fam="deep", E=E, emb="0", npts=160, d=0, seed=s)
     add("plain", fam="empty", emb="0,2,4", npts=4, d=1, seed=s)
     return J
